@@ -668,6 +668,102 @@ func (s *c16Scn) runStreamLive(variant int) string {
 	return class
 }
 
+// Several subscribers of ONE channel, each with its own pair of filters (equal client filters with
+// different server filters, equal server filters with different client filters, or unrelated): every
+// live broadcast is judged per subscriber against that subscriber's own two filters.
+func (s *c16Scn) runMultiLive(variant int) string {
+	history := variant >= 1
+	positioned := variant >= 2
+	m := 2 + s.r.Intn(3)
+	pattern := s.r.Intn(3)
+	sharedC := c16GenFilter(s.r, 2)
+	sharedS := c16GenFilter(s.r, 2)
+	var subs []*c16Scn
+	defer func() {
+		for _, t := range subs {
+			_ = t.client.close(DisconnectForceNoReconnect)
+			s.e.mu.Lock()
+			delete(s.e.subOpts, t.syncCh)
+			s.e.mu.Unlock()
+		}
+	}()
+	for k := s.r.Intn(3); k > 0 && history; k-- {
+		s.publishStream(true)
+	}
+	for j := 0; j < m; j++ {
+		t := &c16Scn{e: s.e, r: s.r, ch: s.ch, syncCh: fmt.Sprintf("%s_m%d", s.syncCh, j), pubs: s.pubs, remKey: s.remKey}
+		switch pattern {
+		case 0: // the same client filter, the server narrows only some of them
+			t.ctf = sharedC
+			if j > 0 && s.r.Intn(4) != 0 {
+				t.stf = c16GenFilter(s.r, 2)
+			}
+		case 1: // the same server filter, different client filters
+			t.stf = sharedS
+			if j > 0 && s.r.Intn(4) != 0 {
+				t.ctf = c16GenFilter(s.r, 2)
+			}
+		default:
+			if s.r.Intn(3) != 0 {
+				t.stf = c16GenFilter(s.r, 2)
+			}
+			if s.r.Intn(3) != 0 {
+				t.ctf = c16GenFilter(s.r, 2)
+			}
+		}
+		if s.r.Intn(3) == 0 {
+			t.connect(ProtocolTypeProtobuf)
+		} else {
+			t.connect(ProtocolTypeJSON)
+		}
+		// the subscribe handler reads the channel's options: set this subscriber's server filter for its request
+		s.setSubOpts(SubscribeOptions{AllowTagsFilter: true, ServerTagsFilter: t.stf, EnablePositioning: positioned})
+		res, perr, disc := t.subscribeRaw(&protocol.SubscribeRequest{Channel: s.ch, Tf: t.ctf})
+		if res == nil {
+			s.bad = fmt.Sprintf("subscribe %d failed: %v %v", j, perr, disc)
+			return "multi-live"
+		}
+		if t.bad != "" {
+			s.bad = t.bad
+		}
+		subs = append(subs, t)
+	}
+	s.stf, s.ctf = subs[len(subs)-1].stf, subs[len(subs)-1].ctf
+	n := 3 + s.r.Intn(6)
+	for k := 0; k < n && s.bad == ""; k++ {
+		curs := make([]uint64, len(subs))
+		for j, t := range subs {
+			curs[j], _ = t.position()
+		}
+		p := s.publishStream(history)
+		for j, t := range subs {
+			got := t.drain()
+			after, _ := t.position()
+			delivered := false
+			for _, gp := range got.pubs {
+				if id := t.idOf(gp.Data, gp.Key, gp.Removed, gp.Offset); id == p.ID {
+					delivered = true
+				} else {
+					s.bad = fmt.Sprintf("subscriber %d: unexpected push data %q for publication %d", j, gp.Data, p.ID)
+				}
+			}
+			if len(got.pubs) > 1 {
+				s.bad = "more than one push for one publication"
+			}
+			if t.bad != "" {
+				s.bad = t.bad
+			}
+			v, jv := t.verd([]uint64{p.ID})
+			term := vApp("StLive", vBool(positioned), "false", vN(curs[j]), vApp("mkPub", vN(p.Off), "false", vN(p.ID)), vBool(delivered), vN(after))
+			s.steps = append(s.steps, vPair(v, term))
+			s.js = append(s.js, map[string]any{"step": "live", "subscriber": j, "positioned": positioned, "delta": false, "cur": curs[j],
+				"pub": p, "delivered": delivered, "cur_after": after, "verdicts": jv, "stf": t.stf, "ctf": t.ctf})
+		}
+	}
+	return [...]string{"multi-live-offsetless", "multi-live-unpositioned", "multi-live-positioned"}[variant] +
+		[...]string{"/same-client-filter", "/same-server-filter", "/mixed"}[pattern]
+}
+
 func (s *c16Scn) refreshStep(isMap bool) {
 	var newF *FilterNode
 	mode := s.r.Intn(4)
@@ -1158,9 +1254,9 @@ func TestVerifC16(t *testing.T) {
 			s.connect(ProtocolTypeJSON)
 		}
 		var class string
-		kind := i % 10
-		if i >= 10 {
-			kind = r.Intn(10)
+		kind := i % 12
+		if i >= 12 {
+			kind = r.Intn(12)
 		}
 		switch kind {
 		case 0:
@@ -1173,6 +1269,8 @@ func TestVerifC16(t *testing.T) {
 			class = s.runStreamRecovery(true)
 		case 5, 6, 7:
 			class = s.runMap(false)
+		case 10, 11:
+			class = s.runMultiLive(r.Intn(3))
 		default:
 			class = s.runMap(true)
 		}
